@@ -161,6 +161,29 @@ fn run_merge(inputs: &[Vec<Iv>]) -> Result<Vec<Iv>, String> {
     .unwrap_or_else(|p| Err(format!("panic: {}", p)))
 }
 
+type BoxedStream = Box<dyn Iterator<Item = Result<Value, std::io::Error>> + Send>;
+
+/// The same inputs merged as a lazy tree: the first stream against the (not yet evaluated) merge
+/// of the others.  A merge is an iterator like any other, so this must give the flat merge.
+fn run_merge_nested(inputs: &[Vec<Iv>]) -> Result<Vec<Iv>, String> {
+    let mk = |st: &Vec<Iv>| -> BoxedStream { Box::new(st.clone().into_iter().map(|(s, e, v)| Ok::<Value, std::io::Error>(Value { start: s, end: e, value: v }))) };
+    let first = mk(&inputs[0]);
+    let rest: Vec<BoxedStream> = inputs[1..].iter().map(mk).collect();
+    guarded(move || {
+        let inner: BoxedStream = Box::new(merge_sections_many(rest));
+        let mut out = vec![];
+        for v in merge_sections_many(vec![first, inner]) {
+            let v = v.map_err(|e| format!("{}", e))?;
+            out.push((v.start, v.end, v.value));
+            if out.len() > 10_000 {
+                return Err("more than 10000 output values".to_string());
+            }
+        }
+        Ok(out)
+    })
+    .unwrap_or_else(|p| Err(format!("panic: {}", p)))
+}
+
 fn merge_tags(inputs: &[Vec<Iv>]) -> Vec<String> {
     let mut t = vec![];
     if inputs.iter().flatten().any(|i| i.0 < 50000 && i.1 > 50000 || i.0 < 100000 && i.1 > 100000) {
@@ -179,6 +202,23 @@ fn c15_judge(inputs: &[Vec<Iv>], out: &mut Outcome) {
             }
             if let Err(e) = check_merge(inputs, &got) {
                 out.fail("merge_differs_from_per_base_sum", &merge_tags(inputs), format!("inputs {:?} -> {:?}: {}", inputs, got, e));
+            }
+        }
+    }
+    // three and more streams: also as a lazy tree of merges (exact sums only: the association of the
+    // additions differs, which is visible in the last bit for values that do not add exactly)
+    let exact = inputs.iter().flatten().all(|i| (i.2 * 4.0).fract() == 0.0 && i.2.abs() < 1000.0);
+    if inputs.len() >= 3 && exact {
+        out.count("nested_merge_runs", 1);
+        match run_merge_nested(inputs) {
+            Err(e) => out.fail("merge_failed", &merge_tags(inputs), format!("nested, inputs {:?}: {}", inputs, e)),
+            Ok(got) => {
+                // the inner merge drops zero sums, which the outer one then cannot see: judge
+                // against the per-base sums of first + inner output
+                let inner = run_merge(&inputs[1..]).unwrap_or_default();
+                if let Err(e) = check_merge(&[inputs[0].clone(), inner], &got) {
+                    out.fail("nested_merge_differs_from_per_base_sum", &merge_tags(inputs), format!("inputs {:?} -> {:?}: {}", inputs, got, e));
+                }
             }
         }
     }
